@@ -4,8 +4,5 @@ CONSTANTS
   Tier = "quick"
 SPECIFICATION Spec
 CHECK_DEADLOCK FALSE
-INVARIANT MassBalance
-INVARIANT FrozenMarginal
-INVARIANT LinesOK
+INVARIANT LinesRescale
 PROPERTY StepOK
-PROPERTY IsolatedMarginal
